@@ -96,3 +96,15 @@ Theorem C09_threaded_hole_same_region :
   Slab.inside_eo (thread e0 pre v h post :: rs) p
   = Slab.inside_eo ((e0 :: pre ++ v :: post) :: (v :: h) :: rs) p.
 Proof. exact threaded_ring_same_region. Qed.
+
+(** cutting an edge at a point strictly inside it (the sweep does that to an edge another ring's
+    vertex touches) changes no crossing count, hence not the region: the canonical boundaries
+    compared at run time have collinear runs merged *)
+From GB Require Import BoundarySplit.
+Import ListNotations.
+Theorem C09_cut_edge_same_crossings :
+  forall a m b : Slab.qpt,
+  Slab.qx a < Slab.qx m -> Slab.qx m < Slab.qx b ->
+  (Slab.qy m - Slab.qy a) * (Slab.qx b - Slab.qx a) == (Slab.qy b - Slab.qy a) * (Slab.qx m - Slab.qx a) ->
+  forall p, Slab.crossings [Slab.mk_edge a b] p = Slab.crossings [Slab.mk_edge a m; Slab.mk_edge m b] p.
+Proof. exact split_edge_crossings. Qed.
